@@ -394,6 +394,12 @@ class SimulationAlgorithmGraphBase
         return t;
         }
 
+    bool IsComplete()
+    // tells if the simulation have been flagged as complete.
+        {
+        return complete;
+        }
+
     std::vector<double> & GetSampledT()
         {
         return sampled_t;
